@@ -78,7 +78,9 @@ func (rg *refGroup) collectSymbols(refname string) (bool, []sizes.RefGroupSymbol
 // gitconfig and returns the result. It is not considered an error if
 // there are no usable config entries for the filter.
 func (rg *refGroup) augmentFromConfig(configger Configger) error {
-	config, err := configger.GetConfig(fmt.Sprintf("refgroup.%s", rg.Symbol))
+	// The trailing '.' makes sure that the whole symbol is taken as
+	// the subsection, even if it ends with a '.' itself (like 'x..').
+	config, err := configger.GetConfig(fmt.Sprintf("refgroup.%s.", rg.Symbol))
 	if err != nil {
 		return err
 	}
